@@ -42,7 +42,8 @@ def case_strategy(draw):
                       slack=draw(st.sampled_from([0.5, 1.0, 2.0])), left_first=draw(st.booleans()))
     return dict(lens=lens, kind=kind, x0=x0, objective=objective, cons=cons, total=draw(st.sampled_from([1.0, 1.0, 4.0, 25.0])), shared=shared,
                 format=draw(st.sampled_from(["dense", "sparse"])), solver=draw(st.sampled_from(["default", "default", "glpk"])),
-                sparse=draw(st.booleans()), ub_var=draw(st.integers(0, nv - 1)))
+                sparse=draw(st.booleans()), ub_var=draw(st.integers(0, nv - 1)),
+                maxit=draw(st.sampled_from([None] * 7 + [1, 2])))
 
 
 def model(case):
@@ -153,8 +154,9 @@ def oracle(case, stats=None):
     if case["kind"] in ("feas", "simplex") and st_ref != "optimal":
         raise RuntimeError("generator/oracle inconsistency: planted feasible boxed problem but HiGHS says %s" % st_ref)
     P = op(fobj, cv_cons)
+    opts = dict(OPTS, maxiters=case["maxit"]) if case.get("maxit") else OPTS
     try:
-        P.solve(case["format"], case["solver"], options=OPTS)
+        P.solve(case["format"], case["solver"], options=opts)
     except ValueError as e:
         if "Rank" in str(e) and case["solver"] == "default":
             # documented requirement of the LP solver: Rank(A) = p.  Legitimate iff the equality rows written
@@ -173,6 +175,12 @@ def oracle(case, stats=None):
     labels.append("status:" + str(status))
     want = {"optimal": "optimal", "infeasible": "primal infeasible", "unbounded": "dual infeasible"}[st_ref]
     if status == "unknown":
+        # "If the problem was not solved successfully, self.status is set to 'unknown'.  The value attributes of the
+        # variables and the constraint multipliers are set to None."
+        left = ["variable %d" % k for k, x in enumerate(xs) if x.value is not None and any(x is v for v in P.variables())] + \
+               ["multiplier of constraint %d" % k for k, c in enumerate(cv_cons) if c.multiplier.value is not None]
+        if left:
+            raise Violation("op.status = 'unknown' (maxiters = %r) but values are left in: %s" % (case.get("maxit"), ", ".join(left[:4])))
         if stats is not None:
             stats.evaluated(case, False, labels + ["solver_unknown"])
         return
